@@ -17,6 +17,10 @@ pub mod serde;
 pub mod value;
 pub mod writer;
 
+#[cfg(sonic_rs_verif)]
+#[doc(hidden)]
+pub mod verif;
+
 // re-export FastStr
 pub use ::faststr::FastStr;
 // re-export the serde trait
